@@ -66,7 +66,9 @@ CLAIMS = {
             "compared with a freshly constructed bandit fit on the same data from the same generator state "
             "(deep snapshot, expectations, cold_arms)", "6.C07"),
     "C08": ("Inv_C08_Keys (TLC) + replay: arm list, key sets and key order of every per-arm map and of every query "
-            "result, result shape for 0/1/m rows, after every edge of histories interleaving arm changes", "6.C08"),
+            "result, result shape for 0/1/m rows, after every edge of histories interleaving arm changes (Mab.tla and Life.tla "
+            "graphs over all 45 policy combinations, arm-churn graphs); the repository's own test-suite run with hooks on and "
+            "every public call validated as a step of Life.tla by TraceLife.tla", "0.6, 6.C08"),
     "C09": ("Inv_C09_FirstArgmax on exact rationals (TLC) + replay: predict on one copy versus first maximiser in "
             "arm-list order of predict_expectations on another copy from the same stream position, label maps whose "
             "order differs from the sorted order", "6.C09"),
